@@ -3,7 +3,7 @@
    (TzSpec, characterised by C05_preimages_meaning). *)
 From Coq Require Import ZArith List Bool.
 From V Require Import tzfile.TzModel tzfile.TzSpec tzfile.TzData tzfile.TzFixedThm tzfile.TzWallThm
-  tzfile.TzFinalThm.
+  tzfile.TzFinalThm tzfile.TzResolveThm.
 Import ListNotations.
 Open Scope Z_scope.
 
@@ -48,13 +48,14 @@ Theorem C05_resolve_imaginary_id_when_exists : forall d, good d = true ->
 Proof. exact resolve_id_lemma. Qed.
 Print Assumptions C05_resolve_imaginary_id_when_exists.
 
-(* imaginary w: moved forward by exactly the width of the gap, under the hypothesis forced by
-   the +-24 h probe of the code (`isolated`, TzSpec) *)
+(* imaginary w: moved forward by exactly the (positive) width of its gap, onto an existing wall
+   time -- no hypothesis on the spacing of the transitions (resolve_imaginary after fix 7f58098
+   measures the gap by a trip through UTC) *)
 Theorem C05_resolve_imaginary_gap_width : forall d, good d = true -> wf_zone (zone_of d) = true -> forall w f,
-  preimages (zone_of d) w = [] -> isolated (zone_of d) w = true ->
-  exists g, gap_width (zone_of d) w = Some g /\ resolve_imaginary d w f = Ok (w + g, false) /\
-            resolve_spec (zone_of d) w = w + g.
-Proof. exact resolve_gap_lemma. Qed.
+  preimages (zone_of d) w = [] ->
+  exists g, 0 < g /\ gap_width (zone_of d) w = Some g /\ resolve_imaginary d w f = Ok (w + g, false) /\
+            resolve_spec (zone_of d) w = w + g /\ preimages (zone_of d) (w + g) <> [].
+Proof. exact resolve_gap_full_lemma. Qed.
 Print Assumptions C05_resolve_imaginary_gap_width.
 
 Theorem C05_fixed_classify : forall o w f,
